@@ -772,7 +772,7 @@ var boundsText = map[string][2]string{
 	"C03": {"as C01 (both decoders and encoders compared); 9 skeleton files", "every body length 0..96"},
 	"C04": {"exact header: calibration-selected lengths <= 64 (heavy types <= 16 and first two success lengths); symbolic size field / largesize at body lengths 8 and 16; 9 skeleton files x every fifth (leaf, decode mode) pair with the leaf symbolic; budgets 100000+4000*N steps, 1 MiB+64*N bytes", "exact header: every length 0..48; symbolic size at 0,4,8,12,16,24,32; Info at all levels; every leaf x decode mode of every skeleton file"},
 	"C05": {"14 addition patterns (<= 3 additions, <= 2 tracks), trun optimisation on/off, two encoder/decoder pairings, extra boxes on every third pattern; payload <= 3 bytes per sample", "23 patterns (<= 4 additions, <= 3 tracks), all four encoder/decoder pairings"},
-	"C06": {"AVC NAL size lists {1,15,16,107,108,109,123;124,200+5,130;16+3} x IV 8/16, AAC sizes {0,1,15,16,17,40,32;33} x cenc/cbcs, one instance with uuid+unknown boxes, 6 instances with init and media decoded separately (<= 2 samples); key/IV/metadata symbolic", "adds NAL sizes 112,113,128,255+20;300,16;16;16 and audio 2,31,48,5;5;5"},
+	"C06": {"HEVC NAL size lists {2,108,130;17+3} (+ one decoded separately), AVC NAL size lists {1,15,16,107,108,109,123;124,200+5,130;16+3} x IV 8/16, AAC sizes {0,1,15,16,17,40,32;33} x cenc/cbcs, one instance with uuid+unknown boxes, 6 instances with init and media decoded separately (<= 2 samples); key/IV/metadata symbolic", "adds NAL sizes 112,113,128,255+20;300,16;16;16 and audio 2,31,48,5;5;5"},
 	"C07": {"the C06 instances (assertions on the encrypted form) and GetAVCProtectRanges for every NAL size 1..40 and around 112 / 65535", "as quick with the thorough C06 sizes"},
 	"C08": {"6 chunk layouts (<= 3 chunks x 3 samples, 1-2 tracks) x half of {large mdat, mdat first, co64} x work buffers 0,1,2,(5); symbolic (start,size) and sample intervals", "10 layouts x all 8 variants x work buffers 0,1,2,5"},
 	"C09": {"5 stsc layouts x 1-2 stts entries x {built, decoded} x {stco,co64}x{explicit,uniform} (2 of 4) x option sets {0,5,11}; <= 8 samples; symbolic deltas, sizes, offsets, sample numbers, intervals and times", "11 layouts x 1-3 stts entries x all variants x 12 option sets"},
